@@ -1,0 +1,155 @@
+//go:build verif
+
+package goja
+
+// Contracts for property C17 (typed arrays never touch memory outside their buffer).
+
+//@ func specTABuf uninterpreted
+//@ func specTAElemSize uninterpreted
+
+// Rely: every typed array / DataView object satisfies its representation invariant; unknown code
+// preserves it. Guarantee: constructor contracts below + the stable-field store scan.
+//@ typeinv *typedArrayObject specTAWF
+//@ typeinv *dataViewObject specDVWF
+//@ stable typedArrayObject.offset typedArrayObject.length typedArrayObject.elemSize typedArrayObject.viewedArrayBuf typedArrayObject.typedArray
+//@ stable dataViewObject.byteOffset dataViewObject.byteLen dataViewObject.viewedArrayBuf
+//@ stable typedArraySortCtx.ta typedArraySortCtx.compare
+// Script cannot reach the sort adapter's bookkeeping fields.
+//@ jspreserved typedArraySortCtx.needValidate typedArraySortCtx.detached
+
+// The eleven element types reach memory through unsafe.Add without any bounds check. Their
+// contract is assumed (the pointer arithmetic itself is specified, not verified); every call site
+// in the package must establish it.
+//@ iface typedArray.get
+//@   props C17
+//@   trusted
+//@   sweep-callers
+//@   requires specTAAccessOK(self, idx) [in-buffer-attached]
+//@   assigns nothing
+
+//@ iface typedArray.getRaw
+//@   props C17
+//@   trusted
+//@   sweep-callers
+//@   requires specTAAccessOK(self, idx) [in-buffer-attached]
+//@   assigns nothing
+
+//@ iface typedArray.set
+//@   props C17
+//@   trusted
+//@   sweep-callers
+//@   requires specTAAccessOK(self, idx) [in-buffer-attached]
+//@   requires specPrimitiveNumeric(value) [value-cannot-run-script]
+//@   assigns elems(specTABuf(self).data)
+
+//@ iface typedArray.setRaw
+//@   props C17
+//@   trusted
+//@   sweep-callers
+//@   requires specTAAccessOK(self, idx) [in-buffer-attached]
+//@   assigns elems(specTABuf(self).data)
+
+//@ iface typedArray.less
+//@   props C17
+//@   trusted
+//@   sweep-callers
+//@   requires specTAAccessOK(self, i) && specTAAccessOK(self, j) [in-buffer-attached]
+//@   assigns nothing
+
+//@ iface typedArray.swap
+//@   props C17
+//@   trusted
+//@   sweep-callers
+//@   requires specTAAccessOK(self, i) && specTAAccessOK(self, j) [in-buffer-attached]
+//@   assigns elems(specTABuf(self).data)
+
+//@ iface typedArray.export
+//@   props C17
+//@   trusted
+//@   sweep-callers
+//@   requires length >= 0 && (length == 0 || specTAAccessOK(self, offset) && specTAAccessOK(self, offset+length-1)) [in-buffer-attached]
+//@   assigns nothing
+
+//@ func relToIdx pure
+//@ func toIntStrict pure
+//@ func toIntClamp pure
+
+//@ func (*arrayBufferObject).ensureNotDetached
+//@   props C17
+//@   requires o != nil
+//@   ensures result == !o.detached [result]
+//@   ensures throw ==> !o.detached [throws-when-detached]
+//@   assigns nothing
+
+//@ func (*typedArrayObject).isValidIntegerIndex
+//@   props C17
+//@   requires a != nil && a.viewedArrayBuf != nil
+//@   ensures result == (!a.viewedArrayBuf.detached && idx >= 0 && idx < a.length) [result]
+//@   assigns nothing
+
+//@ iface typedArray.typeMatch
+//@   props C17
+//@   ensures result ==> specPrimitiveNumeric(v) [match-implies-primitive]
+//@   assigns nothing
+
+// toRaw converts with ToNumber/ToBigInt: it can run script only for non-primitive arguments.
+//@ iface typedArray.toRaw
+//@   props C17
+//@   trusted
+//@   assigns nothing if specPrimitiveNumeric(p0)
+
+//@ func toBigInt
+//@   props C17
+//@   trusted
+//@   ensures result != nil [non-nil]
+//@   assigns nothing if specPrimitiveNumeric(value)
+
+// sort.Stable calls Less/Swap only with 0 <= i, j < Len() (assumed contract of the standard library).
+//@ func (*typedArraySortCtx).Less
+//@   props C17
+//@   requires specSortCtxWF(ctx) && 0 <= i && i < ctx.ta.length && 0 <= j && j < ctx.ta.length
+//@   ensures specSortCtxWF(ctx) [ctx-wf]
+
+//@ func (*typedArraySortCtx).Swap
+//@   props C17
+//@   requires specSortCtxWF(ctx) && 0 <= i && i < ctx.ta.length && 0 <= j && j < ctx.ta.length
+//@   ensures specSortCtxWF(ctx) [ctx-wf]
+
+//@ func (*typedArraySortCtx).checkDetached
+//@   props C17
+//@   requires specSortCtxWF(ctx)
+//@   ensures ctx.detached || !ctx.ta.viewedArrayBuf.detached [validated]
+//@   ensures !ctx.needValidate || ctx.detached [no-longer-pending]
+//@   ensures ctx.ta == old(ctx.ta) [ta-unchanged]
+//@   assigns ctx.detached, ctx.needValidate
+
+// ---- helper frames: which library helpers can run script
+
+//@ func (FunctionCall).Argument pure
+//@ func nilSafe pure
+//@ func IsNaN pure
+//@ func IsUndefined pure
+//@ func IsNull pure
+
+// Assumed: ToObject allocates a wrapper for primitives and throws for null/undefined; it runs no
+// script and modifies no existing object.
+//@ func (*Runtime).toObject
+//@   props C17
+//@   trusted
+//@   ensures result != nil [non-nil]
+//@   assigns nothing
+
+// Assumed: toCallable only type-checks its argument.
+//@ func (*Runtime).toCallable
+//@   props C17
+//@   trusted
+//@   assigns nothing
+
+//@ iface Value.ToInteger
+//@   props C17
+//@   assigns nothing if specPrimitiveNumeric(self)
+
+//@ iface Value.ToBoolean
+//@   props C17
+//@   assigns nothing
+//@ func floatToIntClip pure
